@@ -237,18 +237,23 @@ PROPS = {
 }
 
 # thorough tier: real-code replays of the histories behind the repaired defects (see known_findings.jsonl), and bounded executions
-PROPS["C09"]["thorough_engines"] = [_hist("supervisor", "next_ending_pending", "C09", "to_wait() on a never-started job resolves at once")]
+PROPS["C09"]["thorough_engines"] = [_hist("supervisor", "next_ending_pending", "C09", "to_wait() on a never-started job resolves at once"),
+    _hist("supervisor", "compound_ticket_is_the_last_controls", "C09", "the ticket of restart() / restart_with_signal() resolves only once the fresh process has been hooked and spawned (slow asynchronous spawn hook)")]
 PROPS["C07"]["thorough_engines"] = [_hist("supervisor", sc, "C07", w) for sc, w in [
     ("graceful_stop_exit_in_grace", "the graceful-stop ticket resolves when the child exits inside the grace period"),
     ("try_graceful_restart_spawn_fails", "the try-restart ticket resolves when the respawn fails"),
     ("two_waiters_one_ticket", "every task awaiting a clone of one ticket is woken"),
     ("drop_last_handle_idle", "dropping the last handle of an idle job ends the job task cleanly"),
     ("ticket_outlives_handles", "a ticket outliving all handles resolves"),
-    ("control_queued_behind_delete_resolves", "the ticket of a control queued behind delete() resolves when the job task ends")]]
+    ("control_queued_behind_delete_resolves", "the ticket of a control queued behind delete() resolves when the job task ends"),
+    ("graceful_stop_kills_at_expiry_after_handles_dropped", "a graceful stop whose grace runs out after the last Job handle was dropped still kills the process and resolves its ticket (D18)"),
+    ("pending_controls_run_after_handles_dropped", "controls queued before the last Job handle was dropped are run, in order, each once, and their tickets resolve (D18; 10 rounds)"),
+    ("compound_ticket_is_the_last_controls", "the ticket of restart() / restart_with_signal() / delete() is the ticket of the LAST control sent: it resolves only once the fresh process has been hooked and spawned / the job task has ended")]]
 # "delivers the requested signal": the job task hands the requested Signal to Signal::to_nix (a stand-in in unit task); that the conversion yields that very OS
 # signal is the Kani obligation C19+C06.signal_to_nix.number_preserved on the real function
 PROPS["C06"]["engines"] = PROPS["C06"].get("engines", []) + [_kani.make_engine("signals")]
-PROPS["C06"]["thorough_engines"] = [_hist("supervisor", "try_graceful_restart_once", "C06", "a graceful try-restart past its deadline starts the replacement exactly once")]
+PROPS["C06"]["thorough_engines"] = [_hist("supervisor", "try_graceful_restart_once", "C06", "a graceful try-restart past its deadline starts the replacement exactly once"),
+    _hist("supervisor", "graceful_stop_kills_at_expiry_after_handles_dropped", "C06", "a graceful stop whose grace runs out after the last Job handle was dropped still kills the process at expiry (D18)")]
 PROPS["C03"]["thorough_engines"] = [_hist("ignorefiles", sc, "C03", w) for sc, w in [
     ("prefix_sibling_negation", "a negation in test/.gitignore does not leak into tests/"),
     ("prefix_sibling_shadow", "a hit in test/.gitignore does not shadow the root file for tests/"),
@@ -283,7 +288,9 @@ PROPS["C04"]["thorough_engines"] = [replay_engine("supervisor", "control_sequenc
     _SEQ + "at every spawn (spawn hook) and at every 1 ms sample no process announced earlier for the same job is still in the process table")]
 PROPS["C09"]["thorough_engines"] = PROPS["C09"]["thorough_engines"] + [replay_engine("supervisor", "control_sequences_c09", "C09.bounded.state_and_spawn_count_follow_the_documented_semantics",
     _SEQ + "after each awaited control of a settled sequence the job is running / not running and has spawned as many processes as a reference model of the documented semantics says")]
-PROPS["C10"]["thorough_engines"] = [_hist("supervisor", "urgent_overtakes_normal_when_parked", "C10", "an urgent control pending together with a normal one when the parked job task wakes up runs first (60 trials)")] + [replay_engine("supervisor", "control_sequences_c10", "C10.bounded.normal_controls_run_in_send_order_once",
+PROPS["C10"]["thorough_engines"] = [_hist("supervisor", "urgent_overtakes_normal_when_parked", "C10", "an urgent control pending together with a normal one when the parked job task wakes up runs first (60 trials)"),
+    _hist("supervisor", "pending_controls_run_after_handles_dropped", "C10", "controls queued before the last Job handle was dropped are run, in order, each once (D18; 10 rounds)"),
+    _hist("supervisor", "compound_ticket_is_the_last_controls", "C10", "awaiting the ticket of a compound operation implies every control of it has run: the ticket is the last control's")] + [replay_engine("supervisor", "control_sequences_c10", "C10.bounded.normal_controls_run_in_send_order_once",
     _SEQ + "the normal-priority marker controls interleaved with a burst run in send order, each once (high/urgent overtaking is not observable through the public API: proof only)")]
 PROPS["C05"]["thorough_engines"] = [script_engine("cli_on_busy.py", "cli_on_busy", "C05.bounded.one_change_mid_run_in_each_mode",
     "the real binary, started through a first change (--postpone), one change 1 s into a 3 s run in each --on-busy-update mode (do-nothing, queue, queue with a second change during the queued run, restart, signal with --signal SIGUSR1): the start/end/term/usr1 history of the command is the documented one and runs never overlap")]
